@@ -924,6 +924,10 @@ int ys_scan(ys_rules* r, ys_scanner* s, const uint8_t* data, size_t len,
         rc = yr_scanner_scan_fd(s->s, fd);
       else
         rc = yr_rules_scan_fd(r->r, fd, o->flags, scan_cb, &sc, o->timeout);
+      /* the descriptor belongs to the caller: it must still be open, and a scan must not
+         depend on (or move) its file offset in a way that breaks a second use */
+      if (fcntl(fd, F_GETFD) == -1)
+        rc = YS_ERR_FD_CLOSED_BY_LIBRARY;
     }
     else
     {
